@@ -37,6 +37,8 @@ SPEC_MUTANTS = [  # (Mutant, Mode)
     ("no_reslice_on_get", "serial"), ("no_final_flush", "serial"), ("flush_always", "serial"),
     ("drop_carry", "serial"), ("early_status", "serial"), ("sid_early_release", "conc"),
     ("put_before_last_in", "serial"),   # mechanism M_PutAfterLastIn off: rejected by the ownership invariant BufOwned
+    ("ueof_is_eof", "serial"),          # io.ErrUnexpectedEOF counts as the end of the body: rejected by OKOnlyAfterAllLines
+    ("gz_double_put", "gz"),            # failed Reset puts the pooled gzip reader back AND the deferred Put runs: PoolHoldsEachObjectOnce
 ]
 
 
@@ -88,11 +90,12 @@ def build_cases(ctx, exported):
     n_long = 3000 if quick else 40000
     for _ in range(n_long):
         c = rng.choice(cand)
+        gz = 1 if rng.random() < 0.4 else 0
         lines.append({"fam": "long", "id": nid, "reqs": c["reqs"], "scale": rng.choice(scales),
-                      "unlim": rng.random() < 0.5, "gz": 1 if rng.random() < 0.3 else 0})
+                      "unlim": rng.random() < 0.5, "gz": gz, "trunc": bool(gz and rng.random() < 0.4)})
         nid += 1
     # ---- concurrent rounds
-    single = [c["reqs"][0] for c in exported if len(c["reqs"]) == 1 and c["reqs"][0]["end"] != "err"]
+    single = [c["reqs"][0] for c in exported if len(c["reqs"]) == 1 and c["reqs"][0]["end"] in ("with", "after")]
     barrier_ok = [r for r in single if len(r["sizes"]) >= 2 and not r["zr"] and has_symbol(r)]
     both_sides = [r for r in barrier_ok if in_calls_on_both_sides(r)]
     n_rounds = 300 if quick else 3000
@@ -123,7 +126,27 @@ def build_cases(ctx, exported):
         lines.append({"fam": "conc", "id": nid, "gate_k": k, "scale": rng.choice([1, 1, 5, 64]), "gz": 0,
                       "g": [[a], [rng.choice(b_split)]]})
         nid += 1
+    # ---- gzip reader pool: a good gzip request, one with a bad gzip header (Reset of the pooled reader fails), then
+    #      gzip request A blocked inside its FIRST In call (one gzip member per read chunk: A still needs its reader
+    #      afterwards) while gzip request B is served completely.  GC off, GOMAXPROCS(1) and default.
+    n_gzseq = 150 if quick else 1500
+    for i in range(n_gzseq):
+        lines.append({"fam": "conc", "id": nid, "gate_k": 1, "gzseq": True, "gzmode": 3, "scale": rng.choice([1, 5, 64, 5000]),
+                      "gz": 1, "g": [[rng.choice(both_sides)], [rng.choice(a_any)]]})
+        nid += 1
     return lines
+
+
+def shared_reader_in_trace(trace):
+    """the counterexample has a state in which two requests hold the same gzip reader object"""
+    for _, v in trace:
+        m = re.search(r"<<([^>]*)>>", v.get("zr", ""))
+        if m:
+            ids = [x.strip() for x in m.group(1).split(",")]
+            held = [x for x in ids if x and x != "0"]
+            if len(held) != len(set(held)):
+                return True
+    return False
 
 
 def window_in_trace(trace):
@@ -164,7 +187,7 @@ def run(ctx):
     n_exported = len(exported)
     # side runs (concurrent configuration, spec mutants) in ONE background thread while the harness is built and run
     # (the main thread does not use ctx.tlc meanwhile)
-    side = {"killed": [], "conc": None, "exc": None}
+    side = {"killed": [], "conc": None, "gz": None, "exc": None}
 
     def side_runs():
         try:
@@ -187,6 +210,16 @@ def run(ctx):
             if not window_in_trace(r.trace):
                 raise vlib.Infra("counterexample of put_before_last_in does not show the hand-over window:\n%s" % r.out[-3000:])
             side["killed"].append("put_before_last_in(conc,observable)->%s[window: other request holds the buffer of a pending In]" % r.violated)
+            # gzip reader pool: the faithful three-step sequence, and the double-put switch against the observable invariants
+            side["gz"] = tlc_ok(ctx, "HttpChunk", "HttpChunk_gz.cfg", timeout=300 if quick else 1200, deadlock=False,
+                                seed=ctx.seed, workers=8, overrides={"GzLen": "1" if quick else "2"})
+            r = ctx.tlc("HttpChunk", "HttpChunk_gzobs.cfg", timeout=300, deadlock=False, workers=4,
+                        name="spec-mutant/gz_double_put(observable,gz)")
+            if r.ok or r.kind != "invariant":
+                raise vlib.Infra("spec mutant gz_double_put is not rejected by the observable invariants (%s/%s)" % (r.violated, r.kind))
+            if not shared_reader_in_trace(r.trace):
+                raise vlib.Infra("counterexample of gz_double_put does not show two requests holding one reader:\n%s" % r.out[-3000:])
+            side["killed"].append("gz_double_put(gz,observable)->%s[two requests hold the same gzip reader]" % r.violated)
         except BaseException as e:  # re-raised in the main thread
             side["exc"] = e
 
@@ -238,6 +271,11 @@ def evaluate(ctx, r, lines, n_exported, killed, conc):
             raise vlib.Infra("no request was answered with 200")
         if st["gate_in_blocked_while_other_request_served"] == 0 or st["gate_blocked_in_was_unterminated_last_line"] == 0:
             raise vlib.Infra("the blocked-In window was never constructed")
+        if st["gzseq_runs"] == 0 or st["gzseq_good_request_200"] == 0 or st["gzseq_bad_header_request_not_200"] == 0:
+            raise vlib.Infra("the gzip sequence (good request, bad header, two overlapping requests) was not constructed")
+        if min(st["gzip_payload_cut_inside_header"], st["gzip_payload_cut_inside_deflate_data"], st["gzip_payload_cut_inside_trailer"]) == 0 \
+                or st["requests_ending_with_io_ErrUnexpectedEOF"] == 0:
+            raise vlib.Infra("truncated gzip payloads / io.ErrUnexpectedEOF bodies were not exercised in every class")
         if st["gate_pool_handover_probe_hits"] == 0:
             raise vlib.Infra("a sync.Pool Put made inside the blocked In never reached the Get of the request served meanwhile")
 
@@ -249,6 +287,9 @@ def evaluate(ctx, r, lines, n_exported, killed, conc):
     ctx.extra["spec_mutants_rejected"] = killed
     ctx.extra["exported_cases"] = n_exported
     ctx.extra["conc_model_states"] = conc.distinct if conc else 0
+    if st.get("truncated_gzip_acknowledged_with_all_lines_handed_over"):
+        vlib.log("note: %d truncated gzip payloads were acknowledged after ALL lines of the body had been handed over (allowed)"
+                 % st["truncated_gzip_acknowledged_with_all_lines_handed_over"])
     if st.get("non_200_on_clean_body"):
         vlib.log("note: %d clean requests were not answered with 200 (allowed by the statement)" % st["non_200_on_clean_body"])
     if st.get("model_drift_calls_on_error_requests"):
@@ -261,14 +302,15 @@ def evaluate(ctx, r, lines, n_exported, killed, conc):
     if st.get("conc_barrier_timeouts"):
         vlib.log("note: a rendezvous of concurrent requests inside Read was not reached (%d)" % st["conc_barrier_timeouts"])
     ctx.rule = ("case = 1-2 successive requests, each (body over {a,\\r,\\n} up to the length bound, split of the body "
-                "into reads, end flavour (n,EOF)|(n,nil)+(0,EOF)|(0,err), optional (0,nil) reads), enumerated exhaustively by "
-                "TLC (%d cases); ALL of them replayed on the real plugin (Start address=off, ServeHTTP) plain and gzip, plus "
+                "into reads, end flavour (n,EOF)|(n,nil)+(0,EOF)|(0,err)|(0,ErrUnexpectedEOF)|(n,ErrUnexpectedEOF), optional (0,nil) reads), enumerated exhaustively by "
+                "TLC (%d cases); ALL of them replayed on the real plugin (Start address=off, ServeHTTP) plain, gzip and gzip with the payload cut short (header / deflate data / trailer), plus "
                 "%d seeded long-line derivations (symbols blown up to runs around the real read-buffer size) and %d seeded "
                 "concurrent rounds (2/4/8 parallel requests over disjoint alphabets, half of them with a rendezvous inside "
                 "Read) and %d blocked-In windows (an In call of request A -- mostly its unterminated last line -- blocks before "
-                "the bytes are copied while request B with a line split over two reads is served; GOMAXPROCS 1 and default). "
+                "the bytes are copied while request B with a line split over two reads is served; GOMAXPROCS 1 and default; %d of them are gzip sequences: good gzip request, request with a bad gzip header, "
+                "then two overlapping gzip requests, GC off, with a white-box look that the pool holds no *gzip.Reader twice). "
                 "Non-trivial = serial cases in which a line crosses a read boundary (counted by the harness)."
-                % (n_exported, st["long_cases"], st["conc_cases"], st["gate_cases"]))
+                % (n_exported, st["long_cases"], st["conc_cases"], st["gate_cases"], st["gzseq_runs"] // 2))
     for c in lines[:2] + [c for c in lines if c["fam"] == "long"][:1] + [c for c in lines if c["fam"] == "conc"][:1]:
         ctx.sample(c)
     ctx.assumptions += [
